@@ -90,8 +90,9 @@ def authentic (C : Codec (Sig κ)) (msg : Dict) (pk : Pub κ) (typ : Str) : Bool
 /-- Signer side.  `sign`/`alg` are the effective values (after `apply_binding`'s defaults).
     * signing with an algorithm outside the five allowed ones must be refused (any message type);
     * signing a SAMLRequest/SAMLResponse with an allowed algorithm must succeed, the emitted
-      parameters must carry exactly the inputs, and the Signature parameter must be the signer's
-      own signature (digest as announced) over the canonical octet string of those values;
+      parameters must carry exactly the inputs (an empty relay state may be omitted), and the
+      Signature parameter must be the signer's own signature (digest as announced) over the
+      canonical octet string of the emitted values;
     * everything else (no signing, SAMLart, unknown types) is not constrained by the property. -/
 def specSign (C : Codec (Sig κ)) (key : κ) (typ value relayState : Str) (sign : Bool) (alg : Option Str)
     (out : SignOut κ) : Bool :=
@@ -108,11 +109,12 @@ def specSign (C : Codec (Sig κ)) (key : κ) (typ value relayState : Str) (sign 
       | .refused _ => false
       | .ok _ none => false
       | .ok params (some sg) =>
-        let rs := rsOpt relayState
+        -- an empty relay state may be left out (the code does) or sent as an empty parameter
+        let rs := params.get kRelayState
         let octets := canonOctets C.enc typ value rs a
         let other := if typ = kSAMLRequest then kSAMLResponse else kSAMLRequest
         decide (params.get typ = some value) && !params.has other &&
-        decide (params.get kRelayState = rs) && decide (params.get kSigAlg = some a) &&
+        (decide (rs = rsOpt relayState) || decide (rs = some relayState)) && decide (params.get kSigAlg = some a) &&
         decide (sg.octets = octets) && decide (sg.digest = dig) &&
         decide (sg.sig = Sig.signed key dig octets) &&
         decide (params.get kSignature = some (C.b64e sg.sig))
